@@ -97,11 +97,20 @@ func runDecoders(c *ctx, types []string, pMut int, n int) {
 		if g.r.chance(5) {
 			nslots = 0
 		}
+		large := i%97 == 13
+		if large {
+			// a large response (a whole mesh in one push): every resource keeps its own name and content
+			nslots = 64 + g.r.intn(70)
+			c.count("large-responses", 1)
+		}
 		var anys []*anypb.Any
 		names := []string{"a", "b", "c"}
 		for s := 0; s < nslots; s++ {
 			name := names[s%3]
-			if g.r.chance(8) {
+			if large {
+				name = fmt.Sprintf("n%03d", s)
+			}
+			if g.r.chance(8) && !large {
 				name = "a" // duplicate resource name
 			}
 			var a *anypb.Any
